@@ -210,7 +210,13 @@ func (d *Document) SetPageSettings(settings *PageSettings) error {
 
 // GetPageSettings 获取当前文档的页面设置
 func (d *Document) GetPageSettings() *PageSettings {
-	sectPr := d.getSectionProperties()
+	// 只读取，不创建：读取页面设置不应向文档主体追加节属性元素。
+	// 否则被拒绝的 SetCustomPageSize / SetPageOrientation（先读取当前设置再校验）
+	// 虽然返回错误，却会在 Body.Elements 末尾留下一个空的节属性
+	sectPr := d.findSectionProperties()
+	if sectPr == nil {
+		sectPr = &SectionProperties{}
+	}
 	settings := DefaultPageSettings()
 
 	if sectPr.PageSize != nil {
@@ -346,6 +352,19 @@ func (d *Document) SetGutterWidth(width float64) error {
 	settings := d.GetPageSettings()
 	settings.GutterWidth = width
 	return d.SetPageSettings(settings)
+}
+
+// findSectionProperties 查找已存在的节属性（可能在任何位置），不存在时返回 nil，不修改文档
+func (d *Document) findSectionProperties() *SectionProperties {
+	if d.Body == nil {
+		return nil
+	}
+	for _, element := range d.Body.Elements {
+		if sectPr, ok := element.(*SectionProperties); ok {
+			return sectPr
+		}
+	}
+	return nil
 }
 
 // getSectionProperties 获取或创建节属性
